@@ -18,7 +18,7 @@ use std::time::Instant;
 pub fn def() -> PropDef {
     PropDef {
         id: "C08",
-        rule: "part supports_exhaustive: every (original_count, recovery_count) in [0,65537]^2 for the default, high and low rate (3 x 4.3e9 evaluations, exhaustive) against the README envelope written as a definition, plus usize extremes; part layers: every supports() entry point of every family x engine x layer on the 2-wide band around every staircase step, both axes and a random sample; part agreement: generated (o,r,B) concentrated on the boundary: validate/new/reset/Rate::encoder/Rate::decoder succeed iff supported and B even and non-zero, with a truthful error otherwise; part corners: every staircase corner (and neighbours) of every family really encodes and decodes at maximum loss. non-trivial: pairs within distance 1 of the envelope boundary; corners round-tripped",
+        rule: "part supports_exhaustive: every (original_count, recovery_count) in [0,65537]^2 for the default, high and low rate (3 x 4.3e9 evaluations, exhaustive) against the README envelope written as a definition, plus usize extremes; part layers: every supports() entry point of every family x engine x layer on the 2-wide band around every staircase step, both axes and a random sample; part agreement: generated (o,r,B) concentrated on the boundary: validate/new/reset/Rate::encoder/Rate::decoder succeed iff supported and B even and non-zero, with a truthful error otherwise; part corners: every staircase corner (and neighbours) of every family really encodes and decodes at maximum loss (half of the cases) or with k+1 / a uniform number / ALL k + r shards given. non-trivial: pairs within distance 1 of the envelope boundary; corners round-tripped",
         assumptions: &["the reference bound R(o) = max admissible r is read off the definition per n and re-verified against the literal definition on the whole boundary and a random sample"],
         parts,
     }
@@ -389,8 +389,8 @@ fn corner_strategy(tier: Tier) -> BoxedStrategy<CornerCase> {
             let quick = tier == Tier::Quick;
             let eng = if quick { Just(Eng::Default).boxed() } else { gen::engine_for(kind) };
             let sizes: Vec<usize> = if quick { vec![2] } else { vec![2, 64, 66] };
-            (0..corners.len(), eng, 0..sizes.len(), prop_oneof![3 => Just(1u8), 1 => Just(0u8)], any::<u64>()).prop_map(
-                move |(ci, eng, si, pattern, seed)| CornerCase { kind, eng, k: corners[ci].0, r: corners[ci].1, b: sizes[si], pattern, seed },
+            (0..corners.len(), eng, 0..sizes.len(), prop_oneof![3 => Just(1u8), 1 => Just(0u8)], any::<u64>(), crate::props::c01::corner_n_mode()).prop_map(
+                move |(ci, eng, si, pattern, seed, n_mode)| CornerCase { kind, eng, k: corners[ci].0, r: corners[ci].1, b: sizes[si], pattern, seed, n_mode },
             )
         })
         .boxed()
